@@ -239,6 +239,10 @@ func ParseOp(line string) Op {
 			v, _ := strconv.Atoi(x[3:])
 			o.Tk.Forge = v
 		}
+		if strings.HasPrefix(x, "#f2=") {
+			v, _ := strconv.Atoi(x[4:])
+			o.Tk2.Forge = v
+		}
 	}
 	return o
 }
